@@ -244,6 +244,12 @@ impl<D: StorageData> MapProbe<D> {
             .insert_or_replace(&mut self.storage, &key, |v| *v == old, &new)
     }
 
+    /// `MapImpl::insert`: replaces the value of `key` whatever it is, or inserts.
+    pub fn map_insert(&mut self, key: u64, value: u64) -> Result<Option<u64>, DbError> {
+        self.map
+            .insert_or_replace(&mut self.storage, &key, |_| true, &value)
+    }
+
     pub fn remove_key(&mut self, key: u64) -> Result<(), DbError> {
         self.map.remove_key(&mut self.storage, &key)
     }
